@@ -183,3 +183,53 @@ pub fn jstr(s: &str) -> String {
     o.push('"');
     o
 }
+
+/// Is `addr` inside the stack of the main thread or of the calling thread? (Kernel-shared memory of
+/// an asynchronous operation must never live there.)
+pub fn on_stack(addr: usize) -> bool {
+    let (lo, hi) = main_stack();
+    if addr >= lo && addr < hi {
+        return true;
+    }
+    // the calling thread's own stack (not needed on the main thread, whose range is cached above;
+    // glibc would parse /proc/self/maps for it)
+    let probe = 0u8;
+    let here = std::ptr::addr_of!(probe) as usize;
+    if here >= lo && here < hi {
+        return false;
+    }
+    unsafe {
+        let mut attr: libc::pthread_attr_t = std::mem::zeroed();
+        if libc::pthread_getattr_np(libc::pthread_self(), &mut attr) == 0 {
+            let mut base: *mut libc::c_void = std::ptr::null_mut();
+            let mut size: libc::size_t = 0;
+            let ok = libc::pthread_attr_getstack(&attr, &mut base, &mut size) == 0;
+            libc::pthread_attr_destroy(&mut attr);
+            if ok && addr >= base as usize && addr < base as usize + size {
+                return true;
+            }
+        }
+    }
+    false
+}
+
+/// Address range of the main thread's stack; computed once by `main` BEFORE the simulated kernel
+/// is active (it reads /proc/self/maps, which must not happen inside an interposed call).
+pub fn main_stack() -> (usize, usize) {
+    use std::sync::OnceLock;
+    static MAIN: OnceLock<(usize, usize)> = OnceLock::new();
+    *MAIN.get_or_init(|| {
+        let maps = std::fs::read_to_string("/proc/self/maps").unwrap_or_default();
+        for l in maps.lines() {
+            if l.ends_with("[stack]") {
+                if let Some((a, b)) = l.split(' ').next().and_then(|r| r.split_once('-')) {
+                    if let (Ok(a), Ok(b)) = (usize::from_str_radix(a, 16), usize::from_str_radix(b, 16)) {
+                        // the mapping grows downwards: allow for the rlimit (8 MiB)
+                        return (b.saturating_sub(8 << 20).min(a), b);
+                    }
+                }
+            }
+        }
+        (0, 0)
+    })
+}
